@@ -119,6 +119,12 @@ pub fn ty_json<'tcx>(tcx: TyCtxt<'tcx>, t: ty::Ty<'tcx>) -> J {
             o.put("array", ty_json(tcx, *inner));
             if let Some(n) = len.try_to_target_usize(tcx) {
                 o.put("len", J::Int(n as i128));
+            } else if let ty::ConstKind::Unevaluated(uv) = len.kind() {
+                if let Ok(v) = tcx.const_eval_poly(uv.def) {
+                    if let Some(si) = v.try_to_scalar_int() {
+                        o.put("len", J::Int(si.to_bits(si.size()) as i128));
+                    }
+                }
             }
         }
         ty::Slice(inner) => {
